@@ -278,7 +278,7 @@ theorem table_attr_spec (rules : List DefsRule) (c : CardSlots) (sp : Syntax)
 def tableKws : List String :=
   ["ABIN", "AFIX", "BLOC", "CELL", "ZERR", "FMAP", "GRID", "HKLF", "MERG", "MORE", "MOVE", "MPLA", "PLAN", "PRIG", "SHEL",
    "SIZE", "SPEC", "STIR", "TWST", "WGHT", "WIGL", "WPDB", "XNPD", "DAMP", "SWAT",
-   "DEFS", "DFIX", "DANG", "SADI", "SAME", "FLAT", "CHIV", "DELU", "SIMU", "RIGU", "ISOR", "NCSY", "BUMP"]
+   "DEFS", "DFIX", "DANG", "SADI", "SAME", "FLAT", "CHIV", "DELU", "SIMU", "RIGU", "ISOR", "NCSY", "BUMP", "EADP", "EXYZ", "BOND"]
 
 def tableOK (kw : String) : Bool :=
   match syntaxOf kw with
